@@ -234,6 +234,10 @@ pub struct WrapCase {
     /// keep the handle of every allocation whose index is in this list alive
     pub keep: Vec<u32>,
     pub total: u32,
+    /// additionally keep the handle of the first allocation that returns one of these values
+    /// (boundary values of the space: 1, 2, 2^16-2, 2^16-1, and runs that end at the top)
+    #[serde(default)]
+    pub keep_values: Vec<u32>,
 }
 
 /// a full trip around the 16-bit TOI space with a few long-lived handles: the allocator has to
@@ -259,7 +263,7 @@ pub fn run_wrap(c: &WrapCase) -> CaseResult {
         if !seen.insert(t) {
             seen_twice += 1;
         }
-        if c.keep.contains(&i) {
+        if c.keep.contains(&i) || (c.keep_values.contains(&(t as u32)) && !live.contains(&t)) {
             live.insert(t);
             kept.push(h);
         }
@@ -267,6 +271,8 @@ pub fn run_wrap(c: &WrapCase) -> CaseResult {
     let mut info = CaseInfo::new();
     info.nt(seen_twice > 0 && !kept.is_empty());
     info.label_if(seen_twice > 0, "went around the 16-bit space");
+    info.label_if(live.contains(&65535), "the largest TOI of the width stayed reserved while the allocator wrapped");
+    info.label_if(live.contains(&1), "TOI 1 stayed reserved while the allocator wrapped");
     Ok(info)
 }
 
@@ -286,12 +292,25 @@ pub fn run(eng: &mut Engine) {
     eng.generated(
         PartCfg::new(
             "wrap16",
-            "70 000 allocations on the 16-bit width (more than one trip around the space) with 1-12 handles kept alive at generated positions: no returned value may equal a live handle, 0 or exceed 2^16-1; non-trivial = the allocator went around the space with live handles in its way; distinct by case",
-            tier.pick(32, 600),
+            "70 000 allocations on the 16-bit width (more than one trip around the space) with handles kept alive at generated positions and at generated values (biased to the ends of the space: 1, 2, 2^16-2, 2^16-1 and runs of up to 4 values ending at the top): no returned value may equal a live handle, 0 or exceed 2^16-1; non-trivial = the allocator went around the space with live handles in its way; distinct by case",
+            tier.pick(400, 4000),
         ),
         || {
-            (prop_oneof![Just(Some(1u128)), Just(Some(65535u128)), Just(None), (1u128..65536).prop_map(Some)], proptest::collection::vec(0u32..66_000, 1..12))
-                .prop_map(|(initial, keep)| WrapCase { initial, keep, total: 70_000 })
+            let value = prop_oneof![3 => Just(65535u32), 1 => Just(65534u32), 2 => Just(1u32), 1 => Just(2u32), 2 => 1u32..65536];
+            (
+                prop_oneof![Just(Some(1u128)), Just(Some(65535u128)), Just(None), (1u128..65536).prop_map(Some)],
+                proptest::collection::vec(0u32..66_000, 0..8),
+                proptest::collection::vec(value, 0..4),
+                0u32..5,
+            )
+                .prop_map(|(initial, keep, mut keep_values, top_run)| {
+                    for j in 0..top_run {
+                        keep_values.push(65535 - j);
+                    }
+                    keep_values.sort();
+                    keep_values.dedup();
+                    WrapCase { initial, keep, total: 70_000, keep_values }
+                })
                 .boxed()
         },
         run_wrap,
